@@ -1,7 +1,9 @@
 package java
 
 import (
+	"encoding/json"
 	"fmt"
+	"math"
 	"regexp"
 	"strings"
 
@@ -45,25 +47,52 @@ func cleanString(s string) string {
 }
 
 func formatType(t ast.ScalarKind, val interface{}) string {
+	// Defaults come from schemas and from configuration files: their dynamic
+	// type is whatever the decoder chose and may not fit the scalar at all. A
+	// value that is not a number is rendered as is instead of being asserted.
+
 	// When the default is 0, is detected as integer even if it's a float.
-	parseFloatVal := func(val interface{}) interface{} {
-		if v, ok := val.(int64); ok {
-			return float64(v)
+	parseFloatVal := func(val interface{}) (float64, bool) {
+		switch v := val.(type) {
+		case float64:
+			return v, true
+		case float32:
+			return float64(v), true
+		case int64:
+			return float64(v), true
+		case int:
+			return float64(v), true
+		case uint64:
+			return float64(v), true
+		case json.Number:
+			f, err := v.Float64()
+			return f, err == nil
 		}
-		return val.(float64)
+		return 0, false
 	}
 
 	// Integers could be floats in JSON
-	parseIntVal := func(val interface{}) interface{} {
-		if v, ok := val.(float64); ok {
-			return int64(v)
+	parseIntVal := func(val interface{}) (int64, bool) {
+		switch v := val.(type) {
+		case int64:
+			return v, true
+		case int:
+			return int64(v), true
+		case float64:
+			return int64(v), true
+		case uint64:
+			if v > math.MaxInt64 {
+				return 0, false
+			}
+			return int64(v), true
+		case json.Number:
+			if i, err := v.Int64(); err == nil {
+				return i, true
+			}
+			f, err := v.Float64()
+			return int64(f), err == nil
 		}
-
-		if v, ok := val.(int); ok {
-			return v
-		}
-
-		return val.(int64)
+		return 0, false
 	}
 
 	if list, ok := val.([]interface{}); ok {
@@ -78,13 +107,21 @@ func formatType(t ast.ScalarKind, val interface{}) string {
 
 	switch t {
 	case ast.KindInt64, ast.KindUint64:
-		return fmt.Sprintf("%dL", parseIntVal(val))
+		if v, ok := parseIntVal(val); ok {
+			return fmt.Sprintf("%dL", v)
+		}
 	case ast.KindInt8, ast.KindUint8, ast.KindInt16, ast.KindUint16, ast.KindInt32, ast.KindUint32:
-		return fmt.Sprintf("%d", parseIntVal(val))
+		if v, ok := parseIntVal(val); ok {
+			return fmt.Sprintf("%d", v)
+		}
 	case ast.KindFloat32:
-		return fmt.Sprintf("%.1ff", parseFloatVal(val))
+		if v, ok := parseFloatVal(val); ok {
+			return fmt.Sprintf("%.1ff", v)
+		}
 	case ast.KindFloat64:
-		return fmt.Sprintf("%.1f", parseFloatVal(val))
+		if v, ok := parseFloatVal(val); ok {
+			return fmt.Sprintf("%.1f", v)
+		}
 	}
 
 	return fmt.Sprintf("%#v", val)
